@@ -36,6 +36,8 @@ pub enum Val {
     Unit,
     Bool(bool),
     Int(i128),
+    /// unsigned values above i128::MAX
+    Big(u128),
     F64(u64),
     F32(u32),
     Char(char),
@@ -102,6 +104,7 @@ impl Val {
             Val::Unit => "U".into(),
             Val::Bool(x) => format!("B{}", b(*x)),
             Val::Int(i) => format!("I{i}"),
+            Val::Big(u) => format!("I{u}"),
             Val::F64(x) => format!("F64:{}", if f64::from_bits(*x).is_nan() { "nan".to_string() } else { x.to_string() }),
             Val::F32(x) => format!("F32:{}", if f32::from_bits(*x).is_nan() { "nan".to_string() } else { x.to_string() }),
             Val::Char(c) => format!("C{}", *c as u32),
@@ -247,7 +250,7 @@ impl<'de, 'a> Visitor<'de> for V<'a> {
     fn visit_u32<E: de::Error>(self, v: u32) -> Result<Val, E> { self.int(v as i128) }
     fn visit_u64<E: de::Error>(self, v: u64) -> Result<Val, E> { self.int(v as i128) }
     fn visit_u128<E: de::Error>(self, v: u128) -> Result<Val, E> {
-        match self.0 { Ty::Int(..) | Ty::Any => Ok(Val::Int(v as i128)), _ => Err(de::Error::invalid_type(de::Unexpected::Other("u128"), &self)) }
+        match self.0 { Ty::Int(..) | Ty::Any => Ok(if v > i128::MAX as u128 { Val::Big(v) } else { Val::Int(v as i128) }), _ => Err(de::Error::invalid_type(de::Unexpected::Other("u128"), &self)) }
     }
     fn visit_f32<E: de::Error>(self, v: f32) -> Result<Val, E> {
         match self.0 { Ty::Float(_) | Ty::Any => Ok(Val::F32(v.to_bits())), _ => Err(de::Error::invalid_type(de::Unexpected::Float(v as f64), &self)) }
